@@ -1,5 +1,6 @@
 import RootSim.Model.LP
 import RootSim.Model.GenModel
+import RootSim.Model.Serial
 import Driver.Util
 /-!
 Driver modes `serial` and `par`: re-execution of a real ROOT-Sim run on the Lean models.
@@ -483,5 +484,65 @@ def seqStep (s : SeqSys) (toks : List String) : SeqSys × String :=
   | ["gvt", r, tq] => (s, s!"gvt {r} tq={tq}")
   | ["end"] => (s, "end")
   | _ => (s, "bad-op")
+
+
+/-! ### `serial2` mode: the step-by-step model of serial.c (`Model/Serial.lean`, verbatim heap) run on the
+GenModel instance with the timer decisions observed in the real run; prints the whole dispatch trace at
+`end`. Because the model's heap is the verbatim array algorithm, even the order of incomparable
+(equal-content, different destination) events must coincide with the implementation's. -/
+structure Serial2 where
+  P : Params := ⟨0, 1, 1, 1, 0, 0, false, false, false⟩
+  tterm : Nat := 0
+  period : Nat := 1000
+  rng0 : Array Rng := #[]
+  nows : Array Nat := #[]
+
+def timerBits (period : Nat) (vals : List Nat) : List Bool :=
+  match vals with
+  | [] => []
+  | v0 :: rest => go period v0 rest rest.length
+where
+  go (period lastVt : Nat) (vals : List Nat) : Nat → List Bool
+    | 0 => []
+    | fuel + 1 =>
+      match vals with
+      | [] => []
+      | v :: rest =>
+        let fired := decide (period ≤ v - lastVt)
+        if fired then
+          match rest with
+          | [] => [true]
+          | r :: rest' => true :: go period r rest' fuel
+        else false :: go period lastVt rest fuel
+
+def serial2Step (s : Serial2) (toks : List String) : Serial2 × String :=
+  match toks with
+  | ["model", seed, lps, types, fan, thr, spread, rng, mem, t0, _threads, _ckpt, tterm] =>
+    let P : Params := ⟨UInt64.ofNat (nat! seed), nat! lps, nat! types, nat! fan, nat! thr, nat! spread,
+      nat! rng != 0, nat! mem != 0, nat! t0 != 0⟩
+    ({ s with P := P, tterm := nat! tterm, rng0 := Array.replicate (nat! lps) ⟨0, 0, 0, 0⟩ }, "-")
+  | ["period", p] => ({ s with period := nat! p }, "-")
+  | ["sinit", lp, a, b, c, d] =>
+    let rng : Rng := ⟨UInt64.ofNat (parseHexNat a), UInt64.ofNat (parseHexNat b),
+      UInt64.ofNat (parseHexNat c), UInt64.ofNat (parseHexNat d)⟩
+    ({ s with rng0 := s.rng0.set! (nat! lp) rng }, "-")
+  | ["snow", v] => ({ s with nows := s.nows.push (nat! v) }, "-")
+  | ["end"] =>
+    let bits := (timerBits s.period s.nows.toList).toArray
+    let M := simModel s.P (fun lp => s.rng0.getD lp ⟨0, 0, 0, 0⟩)
+    let termT := if s.tterm = 0 then 2 ^ 62 else s.tterm
+    let r := serialRun M termT (fun k => bits.getD k false) 4000000
+    let lines := r.trace.filterMap (fun e =>
+      if e.type = LP_INIT ∨ e.type = LP_FINI then none
+      else some s!"d lp={e.dest} tq={e.t} type={e.type} size={e.payload.length} pl={hx (payloadDigest e.payload)}")
+    let fin := (List.range s.P.nLps).map (fun lp =>
+      let st := r.states.getD lp {}
+      s!"sfini lp={lp} st={hx (digest st)} cnt={st.cnt.toNat}")
+    let oc := match r.outcome with
+      | .finished => "outcome finished"
+      | .outOfFuel => "outcome outOfFuel"
+      | _ => "outcome error"
+    (s, "\n".intercalate (lines ++ fin ++ [oc]))
+  | _ => (s, "-")
 
 end Driver.Run
